@@ -263,3 +263,243 @@ for (L, s0, s1, t, rs) in PWB_TOTAL_SHAPES:
         "always" if (L, s0, rs) in ((56, -1, 0), (64, 0, 2), (64, 79, 2)) else "pool", est=60,
         unwindset=[("BoardId", 73), ("c05::shape", 22), ("memcmp", 8)], funcs=PWB_FUNCS[:2],
         params={"len": L, "sent": s0, "over_threshold": t, "requested_samples": rs}, mem=5, cap=1500)
+
+
+# ------------------------------------------------------------------ C08 (detector part) ----
+NAME_FUNCS = ["midas::{Adc16,Adc32,Alpha16,Padwing,Trigger,Trb3,McVertex,Seq2,Chronobox,MainEvent}BankName::try_from(&str)",
+              "alpha16::BoardId::try_from(&str)", "padwing::BoardId::try_from(&str)", "chronobox::BoardId::try_from(&str)"]
+NAME_LOOPS = [("BoardId", 73), ("in_names", 73), ("memcmp", 8)]
+PARSERS = {0: "adc16", 1: "adc32", 2: "alpha16", 3: "padwing", 4: "fixed", 5: "main"}
+for P, pn in PARSERS.items():
+    for N in range(0, 7):
+        wit = []
+        if N == 4:
+            wit = ["accepted"] + (["rejected"] if P != 4 else [])
+        for also_c01 in (False,):
+            add(name="c08_name_ascii_%s_%d" % (pn, N), prop="C08", also=["C01"], crate="det",
+                expr="crate::c08::name_ascii::<%d, %d>" % (N, P), unwind=10, unwindset=NAME_LOOPS, cap_s=1500, mem_gb=5,
+                est_s=60, family="name_ascii", funcs=NAME_FUNCS, witnesses=wit,
+                sched="always" if N == 4 else ("pool" if N in (3, 5) else "thorough"),
+                params={"parser": pn, "bytes": N, "alphabet": "all ASCII"})
+    for N in range(1, 5):
+        add(name="c08_name_utf8_%s_%d" % (pn, N), prop="C08", also=["C01"], crate="det",
+            expr="crate::c08::name_utf8::<%d, %d>" % (N, P), unwind=10, unwindset=NAME_LOOPS, cap_s=2400, mem_gb=6,
+            est_s=120, family="name_utf8", funcs=NAME_FUNCS, witnesses=["non-ascii-string-parsed"],
+            sched="pool" if N == 4 else "thorough", klass="core" if N <= 3 else "best",
+            params={"parser": pn, "bytes": N, "alphabet": "all valid UTF-8"})
+for N in (0, 1, 2, 3, 4, 5):
+    add(name="c08_board_names_%d" % N, prop="C08", also=["C01"], crate="det", expr="crate::c08::board_names::<%d>" % N,
+        unwind=10, unwindset=NAME_LOOPS, cap_s=1500, mem_gb=5, est_s=60, family="board_names", funcs=NAME_FUNCS[1:],
+        witnesses=["alpha16-accepted"] if N == 2 else [], sched="always" if N in (2, 4) else "pool",
+        params={"bytes": N, "alphabet": "all valid UTF-8"})
+ID_FUNCS = ["TryFrom<u8|u16|u32|char|[u8;6]|usize> of every id / position type in alpha16, padwing, chronobox, midas, aw_map, padwing::map",
+            "TpcPadPosition::new", "TpcWirePosition::try_new / TpcPwbPosition::try_new (run gating arms)"]
+add(name="c08_ids_small", prop="C08", also=["C01"], crate="det", expr="crate::c08::ids_small", unwind=6, cap_s=900, mem_gb=4,
+    est_s=30, family="ids", funcs=ID_FUNCS, witnesses=["reached"], params={"domain": "all u8 / u16 / char values"})
+add(name="c08_ids_mac", prop="C08", also=["C01"], crate="det", expr="crate::c08::ids_mac", unwind=73, cap_s=1500, mem_gb=6,
+    est_s=120, family="ids", funcs=ID_FUNCS, witnesses=["alpha16-mac-accepted", "padwing-mac-accepted"],
+    params={"domain": "all 2^48 MACs, all 2^32 device ids"})
+add(name="c08_indices", prop="C08", also=["C01"], crate="det", expr="crate::c08::indices", unwind=6,
+    cap_s=900, mem_gb=5, est_s=60, family="indices", funcs=ID_FUNCS, witnesses=["equal-positions"],
+    params={"domain": "all usize indices; all (column,row,pad column,pad row) pairs of pairs"})
+for BK in (0, 7):
+    add(name="c08_gating_wire_%d" % BK, prop="C08", crate="det", expr="crate::c08::gating_wire::<%d>" % BK, unwind=10,
+        unwindset=[("BoardId", 10)], cap_s=1200, mem_gb=8, est_s=600, family="gating", funcs=ID_FUNCS[2:], klass="best",
+        sched="thorough", witnesses=["gating-reached"], params={"board": BK, "run": "all u32 < 2941", "channel": "all 32"})
+for PK in (0, 70):
+    add(name="c08_gating_pwb_%d" % PK, prop="C08", crate="det", expr="crate::c08::gating_pwb::<%d>" % PK, unwind=10,
+        unwindset=[("BoardId", 73)], cap_s=1200, mem_gb=8, est_s=600, family="gating", funcs=ID_FUNCS[2:], klass="best",
+        sched="thorough", witnesses=["gating-reached"], params={"board": PK, "run": "all u32 < 4418"})
+for N in (0, 67, 68, 69, 70):
+    add(name="c01_pwb_baseline_%d" % N, prop="C01", crate="det", expr="crate::c08::pwb_baseline::<%d>" % N, unwind=N + 3,
+        cap_s=1500, mem_gb=5, est_s=60, family="pwb_baseline", funcs=["padwing::suppression_baseline"], witnesses=["reached"],
+        sched="always" if N in (67, 68) else "pool", params={"samples": N, "content": "all i16"})
+
+
+# ------------------------------------------------------------------ C07 ----
+FIFO_FUNCS = ["alpha_g_detector::chronobox::chronobox_fifo", "chronobox::fifo_entry / timestamp_counter / wrap_around_marker (via hook)",
+              "chronobox::scalers_block (via hook)", "winnow 0.6.1 combinators (alt, repeat, separated_foldl1, seq, le_u24, le_u32, take, literal)"]
+def fifo_loops(words, blocks=1):
+    return [("to_le_uint", 5), ("repeat0_", words + 2), ("separated_foldl1", blocks + 3), ("memcmp", 6), ("stream::Compare", 6),
+            ("leading_entries", words + 2), ("check_prefix", words + 2), ("fifo_block", 262), ("put_entry", 4)]
+add(name="c07_fifo_word", prop="C07", also=["C01"], crate="det", expr="crate::c07::fifo_word", unwind=6, unwindset=fifo_loops(1),
+    cap_s=900, mem_gb=4, est_s=20, family="fifo_word", funcs=FIFO_FUNCS[1:2] + FIFO_FUNCS[3:],
+    witnesses=["timestamp", "marker", "neither"], params={"word": "all 2^32"})
+for L in (0, 1, 2, 3):
+    add(name="c07_fifo_word_short_%d" % L, prop="C07", also=["C01"], crate="det", expr="crate::c07::fifo_word_short::<%d>" % L,
+        unwind=6, unwindset=fifo_loops(1), cap_s=900, mem_gb=4, est_s=15, family="fifo_word", funcs=FIFO_FUNCS[1:2],
+        witnesses=["rejected"], sched="always" if L == 3 else "pool", params={"bytes": L})
+for L in (0, 3, 4, 8, 240, 243, 244, 245, 248):
+    add(name="c07_scalers_%d" % L, prop="C07", also=["C01"], crate="det", expr="crate::c07::scalers::<%d>" % L, unwind=8,
+        unwindset=fifo_loops(1), cap_s=900, mem_gb=5, est_s=30, family="scalers", funcs=FIFO_FUNCS[2:],
+        witnesses=["consumed-or-short", "rejected"], sched="always" if L in (243, 244, 248) else "pool", params={"bytes": L})
+for L in range(0, 17):
+    w = L // 4
+    add(name="c07_fifo_prefix_%d" % L, prop="C07", also=["C01"], crate="det", expr="crate::c07::fifo_prefix::<%d>" % L,
+        unwind=4, unwindset=fifo_loops(w), cap_s=3600 if L > 8 else 1800, mem_gb=6 if L <= 8 else 12,
+        est_s=30 if L < 4 else (120 if L < 8 else 700), family="fifo_prefix", funcs=FIFO_FUNCS,
+        witnesses=["all-words-are-entries", "no-entry"],
+        sched="always" if L in (0, 3, 4, 5) else ("pool" if L <= 8 else "thorough"), klass="core" if L <= 8 else "best",
+        params={"bytes": L, "content": "all"})
+for (L, cuts) in ((4, (0, 1, 2, 3, 4)), (8, (0, 1, 3, 4, 5, 7, 8)), (12, (4, 6, 8))):
+    for C in cuts:
+        add(name="c07_fifo_split_%d_c%d" % (L, C), prop="C07", crate="det", expr="crate::c07::fifo_split::<%d, %d>" % (L, C),
+            unwind=4, unwindset=fifo_loops(L // 4), cap_s=5400, mem_gb=10 if L <= 8 else 16, est_s=200 if L == 4 else 1500,
+            family="fifo_split", funcs=FIFO_FUNCS, witnesses=["some-entry"],
+            sched="always" if (L, C) in ((4, 2),) else ("pool" if L == 4 else "thorough"), klass="core" if L == 4 else "best",
+            params={"bytes": L, "cut": C, "content": "all"})
+for (A, B) in ((0, 0), (1, 0), (0, 1), (1, 1)):
+    full = 4 * A + 244 + 4 * B
+    for L in sorted({full, full - 1, full - 4, 4 * A + 2, 4 * A + 4, 4 * A + 120, 4 * A + 243}):
+        if L < 0 or L > full:
+            continue
+        add(name="c07_fifo_block_a%d_b%d_l%d" % (A, B, L), prop="C07", also=["C01"], crate="det",
+            expr="crate::c07::fifo_block::<%d, %d, %d>" % (L, A, B), unwind=4, unwindset=fifo_loops(A + B + 1, 1),
+            cap_s=3600, mem_gb=10, est_s=600, family="fifo_block", funcs=FIFO_FUNCS, witnesses=["reached"],
+            sched="thorough", klass="best",
+            params={"entries_before": A, "entries_after": B, "bytes": L, "of": full, "content": "block counters and entry payload bits symbolic"})
+META["C07"] = {
+    "pool_k": 3,
+    "budget_s": {"thorough": 4 * 3600},
+    "bounds": "one entry parser: all 2^32 words and all shorter inputs; scaler block parser: 0..=248 bytes; chronobox_fifo on every "
+              "content of 0..=8 bytes (thorough: up to 16, best effort); split invariance for every cut of 4-byte streams (thorough: "
+              "8/12-byte streams, best effort); streams with one scaler block and <=1 entry on each side, complete and truncated "
+              "(thorough, best effort). Loops: per-loop bounds from the input length (to_le_uint 5, repeat words+2, separated 4).",
+    "outside": "streams longer than 16 bytes without a block / more than one scaler block / more than one entry next to a block; "
+               "many-piece splitting follows from two-piece splitting by induction on the pieces (argument, not a solver result)",
+    "assumptions": ["winnow 0.6.1 without the boxed dyn-Error cause in ContextError under cfg(kani) (the cause is never observable "
+                    "through chronobox_fifo); native replay uses the unpatched behaviour"],
+}
+
+
+# ------------------------------------------------------------------ C08 (physics part) ----
+add(name="c08_warm", prop="C08W", crate="phys", expr="crate::c08p::c08_warm", unwind=2, cap_s=600, mem_gb=2, sched="thorough")
+add(name="c08_wire_pad_column", prop="C08", crate="phys", expr="crate::c08p::wire_pad_column", unwind=4, cap_s=1200, mem_gb=5,
+    est_s=60, family="wire_pad_column", witnesses=["last-column"],
+    funcs=["alpha_g_physics::matching::wire_to_pad_column", "matching::pad_column_to_wires", "TpcWirePosition::phi", "TpcPadColumn::phi"],
+    params={"wire": "all 256", "rotation": "all 32", "column": "all 32"})
+
+
+# ------------------------------------------------------------------ C18 ----
+DRIFT_FUNCS = ["alpha_g_physics::drift::DriftTables::at", "drift::DriftTable::at", "uom f64 quantity arithmetic (Time/Length/Angle)",
+               "verif_drift::VerifDriftTables::{new, at} (hook)"]
+DRIFT_LOOPS = [("VerifDriftTables", 542), ("position", 542), ("DriftTable", 542), ("Quantity", 542), ("slice_selection", 96)]
+DRIFT_TABLE_KEYS = [0, 91, 5, 6, 30, 60, 45, 75, 15, 85, 1, 90, 20, 40, 70, 50]
+for idx, K in enumerate(DRIFT_TABLE_KEYS):
+    first = idx < 2
+    for fam, body, wit, est, mem, klass in (
+            ("range_and_bounds", "range_and_bounds", ["inside", "beyond-last-knot", "before-first-knot"], 600, 10, "core"),
+            ("knots", "knots", ["first-knot", "last-knot"], 600, 10, "core"),
+            ("symmetry", "symmetry", ["inside"], 900, 14, "best"),
+            ("monotone_continuous", "monotone_continuous", ["two-inside"], 2400, 20, "best")):
+        add(name="c18_%s_%d" % (fam, K), prop="C18", crate="phys", expr="crate::c18::%s::<%d>" % (body, K), unwind=4,
+            unwindset=DRIFT_LOOPS, cap_s=3 * est + 600, mem_gb=mem, est_s=est, family=fam, funcs=DRIFT_FUNCS, witnesses=wit,
+            klass=klass, sched=("always" if first and fam in ("range_and_bounds", "knots") else
+                               ("pool" if fam in ("range_and_bounds", "knots") else "thorough")),
+            params={"table": K, "t": "[-1e-6, 5e-6] s", "z": "within the slice"})
+add(name="c18_slice_selection", prop="C18", crate="phys", expr="crate::c18::slice_selection", unwind=4, unwindset=DRIFT_LOOPS,
+    cap_s=1800, mem_gb=8, est_s=120, family="slice_selection", funcs=DRIFT_FUNCS[:1] + DRIFT_FUNCS[3:], witnesses=["inside", "outside"],
+    params={"z": "[-1.3, 1.3] m", "bounds": "all 92 real z bounds"})
+
+
+# ------------------------------------------------------------------ C20 ----
+CBTS_FUNCS = ["alpha-g-chronobox-timestamps::chronobox_time (private fn, text extracted from main.rs at every run)",
+              "alpha-g-chronobox-timestamps::main row loop (text extracted from main.rs)",
+              "chronobox::TimestampCounter/WrapAroundMarker accessors; uom f64 / Frequency"]
+add(name="c20_soundness", prop="C20", crate="phys", expr="crate::c20::soundness", unwind=4, cap_s=900, mem_gb=4, est_s=30,
+    family="cbts_soundness", funcs=CBTS_FUNCS[:1] + CBTS_FUNCS[2:], witnesses=["some-time", "no-time-despite-two-markers"],
+    params={"entry": "any 24-bit timestamp, channel, edge", "markers": "any presence, counters, top bits"})
+add(name="c20_displacement", prop="C20", crate="phys", expr="crate::c20::displacement", unwind=4, cap_s=900, mem_gb=4, est_s=30,
+    family="cbts_displacement", funcs=CBTS_FUNCS[:1], witnesses=["reached"],
+    params={"edge": "true tick in [2^24, 16*2^23)", "faults": "late/early by one half wrap, dropped, duplicated, missing marker"})
+for C in range(0, 15):
+    add(name="c20_model_fixed_%d" % C, prop="C20", crate="phys", expr="crate::c20::model_fixed::<%d>" % C, unwind=4, cap_s=2400,
+        mem_gb=5, est_s=300, family="cbts_model", funcs=CBTS_FUNCS[:1] + CBTS_FUNCS[2:], witnesses=["edge-right-at-the-marker"],
+        sched="always" if C in (0, 1) else ("pool" if C < 6 else "thorough"),
+        params={"marker_counter": C, "edge": "every tick of that half wrap, every channel"})
+add(name="c20_model", prop="C20", crate="phys", expr="crate::c20::model", unwind=4, cap_s=5400, mem_gb=8, est_s=1500,
+    family="cbts_model", funcs=CBTS_FUNCS[:1] + CBTS_FUNCS[2:], witnesses=["last-half-wrap"], sched="thorough", klass="best",
+    params={"edge": "every tick of the first 8 wraps (symbolic marker counter)"})
+for N in (2, 3, 4, 5):
+    add(name="c20_row_loop_%d" % N, prop="C20", crate="phys", expr="crate::c20::row_loop::<%d>" % N, unwind=N + 3, cap_s=3600,
+        mem_gb=8, est_s=300, family="cbts_rows", funcs=CBTS_FUNCS, witnesses=["all-timestamps", "a-row-with-a-time"] if N >= 3 else ["all-timestamps"],
+        sched="always" if N == 3 else ("pool" if N == 2 else "thorough"), klass="core" if N <= 3 else "best",
+        params={"fifo_entries": N, "content": "entry 0 = counter-0 marker, every other entry an arbitrary timestamp or marker"})
+META["C20"] = {
+    "pool_k": 2,
+    "bounds": "chronobox_time: every 24-bit timestamp/channel/edge with every presence/counter/top-bit combination of the two markers "
+              "(soundness); hardware model over the first 8 wraps (15 half wraps; one instance per half wrap, plus one with a symbolic "
+              "counter in thorough); displacement by one half wrap, dropped/duplicated/missing marker. Row loop of main(): every FIFO of "
+              "2..=3 entries after the counter-0 marker (4, 5 in thorough).",
+    "outside": "FIFO parsing (C07), per-board buffering across banks/events/files, the skip to the counter-0 marker and the failure "
+               "exits of main(), CSV serialisation, more than 5 FIFO entries, more than 8 wraps",
+    "assumptions": ["the text of fn chronobox_time, struct Row and the row loop is cut verbatim from main.rs; in the loop "
+                    "`wtr.serialize(row).context(..)?;` is replaced by `out.push(row);`",
+                    "hook constructors TimestampCounter::verif_new / WrapAroundMarker::verif_new mask exactly like the parser (C07 decides the parser)"],
+}
+
+
+# ------------------------------------------------------------------ C04 ----
+import itertools as _it
+CHUNKS_FUNCS = ["alpha_g_detector::padwing::<PwbV2Packet as TryFrom<Vec<Chunk>>>::try_from", "<PwbPacket as TryFrom<Vec<Chunk>>>::try_from",
+                "Chunk::{board_id, after_id, is_end_of_message, payload}", "<PwbV2Packet as TryFrom<&[u8]>>::try_from (on the concatenation)",
+                "Chunk::verif_from_parts (hook)"]
+C04_LOOPS = [("BoardId", 73), ("c04::reassembly", 40), ("memcmp", 8)]
+def octal(seq):
+    return sum(d << (3 * i) for i, d in enumerate(seq))
+LEN_BY_ID = {2: (7, 7), 3: (5, 5, 4), 4: (4, 4, 4, 2)}
+def c04(n, ids, lens, sched, kind, klass="core", est=300):
+    name = "c04_n%d_ids%s_len%s" % (n, "".join(map(str, ids)), "".join(map(str, lens)))
+    if any(i.name == name for i in INSTS):
+        return
+    wit = {"valid": ["well-formed-set-decoded", "well-formed-set-bad-payload", "faulty-set"], "fault": ["faulty-set"]}[kind]
+    add(name=name, prop="C04", also=["C01"], crate="det", expr="crate::c04::reassembly::<%d, %d, %d>" % (n, octal(ids), octal(lens)),
+        unwind=12, unwindset=C04_LOOPS, cap_s=3600, mem_gb=8, est_s=est, family="reassembly_" + kind, funcs=CHUNKS_FUNCS,
+        witnesses=wit, sched=sched, klass=klass,
+        params={"chunks": n, "arrival_order_of_ids": list(ids), "payload_lengths": [4 * x for x in lens],
+                "symbolic": "board (2 real boards), chip, end-of-message flag, counters, payload bytes"})
+for n in (2, 3, 4):
+    base = LEN_BY_ID[n]
+    for perm in _it.permutations(range(n)):
+        lens = tuple(base[i] for i in perm)
+        first = perm in ((1, 0), (0, 1), (2, 0, 1))
+        c04(n, perm, lens, "always" if first else ("pool" if n <= 3 else "thorough"), "valid", est=300 if n < 4 else 600)
+# duplicated / missing ids (every arrival order of each faulty multiset, n = 2, 3)
+for ids in ((0, 0), (1, 1), (0, 2), (1, 2), (0, 7)):
+    for perm in sorted(set(_it.permutations(ids))):
+        c04(2, perm, (7, 7), "always" if perm in ((0, 0), (2, 0)) else "pool", "fault", est=150)
+for ids in ((0, 1, 1), (0, 0, 2), (0, 1, 3), (1, 2, 3), (0, 2, 2), (0, 0, 0)):
+    for perm in sorted(set(_it.permutations(ids))):
+        c04(3, perm, (5, 5, 4), "pool" if perm[0] != 0 else "thorough", "fault", est=200)
+# a non-final chunk of another size (n = 3): sizes by id (5,4,4), (4,5,4), (6,5,3)
+for by_id in ((5, 4, 4), (4, 5, 4), (6, 5, 3)):
+    for perm in _it.permutations(range(3)):
+        c04(3, perm, tuple(by_id[i] for i in perm), "always" if (by_id, perm) == ((5, 4, 4), (1, 2, 0)) else "pool", "fault", est=200)
+# final chunk of another size is fine (valid), n = 2 with unequal sizes
+for lens_by_id in ((7, 6), (6, 7), (1, 7)):
+    for perm in _it.permutations(range(2)):
+        c04(2, perm, tuple(lens_by_id[i] for i in perm), "pool", "valid", est=300)
+for i in INSTS:
+    if i.name.startswith("c04_") and ("len76" in i.name or "len67" in i.name or "len17" in i.name or "len71" in i.name):
+        i.witnesses = ["well-formed-set-bad-payload", "faulty-set"]
+add(name="c04_empty", prop="C04", also=["C01"], crate="det", expr="crate::c04::reassembly_empty", unwind=6, cap_s=600, mem_gb=4,
+    est_s=20, family="reassembly_fault", funcs=CHUNKS_FUNCS[:1], witnesses=["rejected"], params={"chunks": 0})
+for (n, ids, lens) in ((1, (0,), (7,)), (2, (1, 0), (7, 7)), (3, (2, 0, 1), (1, 2, 3)), (2, (0, 0), (0, 1))):
+    add(name="c01_chunks_total_n%d_%s_%s" % (n, "".join(map(str, ids)), "".join(map(str, lens))), prop="C01", crate="det",
+        expr="crate::c04::reassembly_total::<%d, %d, %d>" % (n, octal(ids), octal(lens)), unwind=12,
+        unwindset=[("BoardId", 73), ("c04::reassembly_total", 40), ("memcmp", 8)], cap_s=3600, mem_gb=8, est_s=400,
+        family="chunks", funcs=CHUNKS_FUNCS[:2], witnesses=["rejected"], sched="always" if n == 1 else "pool",
+        params={"chunks": n, "ids": list(ids), "payload_lengths": [4 * x for x in lens], "payload": "fully symbolic"})
+META["C04"] = {
+    "pool_k": 5,
+    "budget_s": {"thorough": 4 * 3600},
+    "bounds": "sets of 2, 3 and 4 chunks whose payloads are the pieces of a 56-byte zero-channel packet (28+28, 20+20+16, "
+              "16+16+16+8 bytes): EVERY arrival order of every well-formed set (2!, 3!, 4! instances) and of the faulty multisets "
+              "(duplicated id, missing id, non-final chunk of another size), each with board (2 real boards), chip, "
+              "end-of-message flag, sequence counters and all payload bytes except the two channel masks symbolic; the empty list. "
+              "Chunk ids and payload lengths are concrete per instance. Loops: default 12, board-table loops 73.",
+    "outside": "more than 4 chunks, payload shapes other than the ones listed (in particular the 65535-byte maximum and packets with "
+               "sent channels), chunk ids above 7, more than two distinct boards in one list",
+    "assumptions": ["Chunk::verif_from_parts builds what Chunk::try_from would accept (C03 decides the wire format)",
+                    "the reference is the documented predicate on the set plus the real slice decoder on the payloads concatenated in id order"],
+}
